@@ -34,6 +34,7 @@ func C09(r *core.Run) {
 	inlineCommentKind(r)
 	statementsRenderSomething(r)
 	descriptionWordsBySpace(r)
+	headerDescriptionOneToken(r)
 }
 
 // C11 — BCL parser is total and every diagnostic points inside the file.
